@@ -371,7 +371,7 @@ class _Normalizer:
                     if isinstance(recv, ast.Attribute) and isinstance(recv.value, ast.Name) and recv.value.id in ('self', 'cls') and cls is not None:
                         hit = cls.find_attr(recv.attr)
                         if hit and not any(k is not hit[0] and recv.attr in k.attrs for k in me.repo.subclasses(cls)):
-                            sv = me.repo.try_fold(hit[1], hit[0].module, hit[0])
+                            sv = me.repo.try_fold(recv, me.m, cls)
                     elif isinstance(recv, ast.Name) and recv.id == 'struct' and n.value.args:
                         f0 = me.repo.try_fold(n.value.args[0], me.m, cls)
                         sv = StructVal(f0) if isinstance(f0, str) else None
@@ -1632,6 +1632,8 @@ class _Normalizer:
             return ast.Tuple(elts=[ast.Constant(value=x) for x in v], ctx=ast.Load())
         if type(v) in (int, str, bytes, float):
             return ast.Constant(value=v)
+        if type(v) is tuple and v:
+            return _scalar_literal(v)      # rows of scalars
         return None
 
     def _const_of(self, e: ast.expr, local: Set[str], cls=None) -> Optional[ast.expr]:
